@@ -15,6 +15,8 @@ class FCfg:
         self.max_dies = 60
         self.partial = 0.5        # probability that the file has partial units
         self.refs = True          # specification / abstract_origin chains
+        self.import_compile_units = True
+        self.bulk = 0.2           # chance of a unit padded with a long string (offsets beyond 0x400 / 0x10000)
         self.versions = (2, 3, 4, 5)
         self.shared_abbrevs = 0.4
         self.__dict__.update(kw)
@@ -144,6 +146,10 @@ class ForestGen:
                 root_attrs.append(self.name_attr(version, self.r.choice([b"a.c", b"b.cc", b"dir/c.c"])))
             if kind == "compile" and self.chance(0.6):
                 root_attrs.append(Attr(AT["language"], FORM["data1"], self.r.choice([1, 2, 4, 12])))
+            if self.chance(cfg.bulk):
+                n = self.r.choice([300, 1100, 1100, 5000, 66000])
+                root_attrs.append(Attr(AT["producer"], FORM["string"], b"p" * n))
+                self.label("bulky-unit")
             root = Die(TAG["compile_unit" if kind == "compile" else "partial_unit"], root_attrs)
             shape = self.r.randint(0, 9)
             if shape == 0:
@@ -158,8 +164,14 @@ class ForestGen:
                     root.children.append(self.subtree(version, self.r.randint(0, cfg.max_depth - 1), die_pool, unit_dies, budget))
                 root.has_children = bool(root.children) or self.chance(0.2)
             # imports of earlier partial units (acyclic by construction)
-            if partial_units and (kind == "compile" or self.chance(0.5)):
-                for pu in self.r.sample(partial_units, self.r.randint(1, min(2, len(partial_units)))):
+            importable = list(partial_units)
+            if cfg.import_compile_units and self.chance(0.2):
+                # DW_AT_import may name a "normal or partial compilation unit" (DWARF 4, 3.1.2)
+                importable += [x for x in units if not x.partial]
+            if importable and (kind == "compile" or self.chance(0.5)):
+                for pu in self.r.sample(importable, self.r.randint(1, min(2, len(importable)))):
+                    if not pu.partial:
+                        self.label("import-of-compile-unit")
                     times = 2 if self.chance(0.15) else 1
                     for _ in range(times):
                         imp = Die(TAG["imported_unit"], [Attr(AT["import_"], FORM["ref_addr"], pu.root)])
@@ -304,7 +316,7 @@ def cooked_parent(die, chain):
     """(parent, chain) in the cooked view; None for a root."""
     p = die.parent
     ch = chain
-    while p is not None and p.tag == TAG["partial_unit"] and ch:
+    while p is not None and ch and import_target(ch[0]) is p:
         imp = ch[0]
         ch = ch[1:]
         p = imp.parent
